@@ -38,11 +38,16 @@ var endCauses = []endCause{
 	{"state-changed", gocbcore.ErrDCPStreamStateChanged, true},
 	{"too-slow", gocbcore.ErrDCPStreamTooSlow, true},
 	{"disconnected", gocbcore.ErrDCPStreamDisconnected, true},
+	// the same causes as gocbcore may hand them over: wrapped (errors.Is still recognises them)
+	{"socket-closed(wrapped in a KeyValueError)", &gocbcore.KeyValueError{InnerError: gocbcore.ErrSocketClosed}, true},
+	{"state-changed(wrapped with %w)", fmt.Errorf("stream end: %w", gocbcore.ErrDCPStreamStateChanged), true},
 	{"ok", nil, false},
 	{"closed", gocbcore.ErrDCPStreamClosed, false},
 	{"filter-empty", gocbcore.ErrDCPStreamFilterEmpty, false},
 	{"lost-privileges", gocbcore.ErrDCPStreamLostPrivileges, false},
 }
+
+const nTransient = 7 // the first entries of endCauses
 
 func init() {
 	scenarios["c12_ends"] = func(raw json.RawMessage) *vrt.Scenario {
@@ -116,7 +121,7 @@ func endsMain(p EndsParams) {
 	next := map[uint16]uint64{0: 1, 1: 1, 2: 1}
 	for step := 0; step < p.Depth; step++ {
 		vb := uint16(vrt.Choose(3, true, "vb"))
-		op := vrt.Choose(len(endCauses)+2, true, "op")
+		op := vrt.Choose(len(endCauses)+3, true, "op")
 		nreq := len(c.Requests)
 		switch {
 		case op == len(endCauses): // deliver a document (auto-acked): moves the settled position
@@ -128,6 +133,14 @@ func endsMain(p EndsParams) {
 			next[vb]++
 			c.Append(vb, marker(s, s), symbolPacket("M", s))
 			hist = append(hist, fmt.Sprintf("deliver%d", vb))
+		case op == len(endCauses)+2: // the marker of the next snapshot arrives, its items do not yet
+			if final[vb] {
+				hist = append(hist, fmt.Sprintf("marker%d-ended", vb))
+				continue
+			}
+			s := next[vb]
+			c.Append(vb, marker(s, s+3))
+			hist = append(hist, fmt.Sprintf("marker%d", vb))
 		case op == len(endCauses)+1: // a seqno-advanced event becomes the last settled event
 			if final[vb] {
 				hist = append(hist, fmt.Sprintf("seqadv%d-ended", vb))
@@ -168,6 +181,16 @@ func endsMain(p EndsParams) {
 					wantS0, wantS1 := uint64(0), uint64(0)
 					if off != nil && off.SnapshotMarker != nil {
 						wantS0, wantS1 = off.StartSeqNo, off.EndSeqNo
+					}
+					// for a settled document the snapshot is the one the SERVER announced for it (read off the wire
+					// log, not off the library's own object)
+					var cs [2]uint64
+					for _, pk := range c.Vb[vb].Log {
+						if pk.Kind == "marker" {
+							cs = [2]uint64{pk.SnapStart, pk.SnapEnd}
+						} else if isDoc(pk.Kind) && pk.Seq == tracked {
+							wantS0, wantS1 = cs[0], cs[1]
+						}
 					}
 					if a[2] != tracked || a[3] != math.MaxUint64 || a[4] != wantS0 || a[5] != wantS1 {
 						vrt.Failf("after %v: vb%d re-opened with (start,end,snap)=(%d,%d,[%d,%d]), want latest settled position (%d,%d,[%d,%d])", hist, vb, a[2], a[3], a[4], a[5], tracked, uint64(math.MaxUint64), wantS0, wantS1)
@@ -354,8 +377,8 @@ func init() {
 			e.Stream.Open()
 			c.WaitIdle()
 			// vb0 (node0) gets a transient end, vb1 (node1) a final one, vb2 (node0) keeps receiving events
-			tc := endCauses[vrt.Choose(5, true, "transient-cause")]
-			fc := endCauses[5+vrt.Choose(4, true, "final-cause")]
+			tc := endCauses[vrt.Choose(nTransient, true, "transient-cause")]
+			fc := endCauses[nTransient+vrt.Choose(4, true, "final-cause")]
 			allOthers := vrt.Choose(2, true, "vb2-ends-too") == 1
 			slowReopen := vrt.Choose(2, true, "slow-reopen") == 1
 			if slowReopen {
@@ -584,7 +607,7 @@ func init() {
 			}
 			ps := perms(3)
 			order := ps[vrt.Choose(len(ps), true, "end-order")]
-			fc := endCauses[5+vrt.Choose(4, true, "final-cause")]
+			fc := endCauses[nTransient+vrt.Choose(4, true, "final-cause")]
 			transientFirst := vrt.Choose(2, true, "transient-first") == 1
 			if transientFirst {
 				c.EndStream(uint16(order[0]), gocbcore.ErrDCPStreamTooSlow)
